@@ -59,6 +59,18 @@ def extra_cases():
                         # a sub-interface that adds an interface method of its own (a new generated class) still inherits __adapt__
                         yield {'custom': custom, 'conform': conform, 'provided': provided, 'hooks': list(hooks), 'alt': alt,
                                'sub': 'method', 'reg': None}
+                        # ... also two and three generated generations below the interface that defines __adapt__
+                        yield {'custom': custom, 'conform': conform, 'provided': provided, 'hooks': list(hooks), 'alt': alt,
+                               'sub': 'method2', 'reg': None}
+                        yield {'custom': custom, 'conform': conform, 'provided': provided, 'hooks': list(hooks), 'alt': alt,
+                               'sub': 'method3', 'reg': None}
+                        # __conform__ attached in other ways than as a plain method
+                        if custom == 'none' and len(hooks) <= 1:
+                            for cshape in ('static', 'instattr', 'callable'):
+                                for cf in ('none', 'value', 'raises', 'typeerror', 'raises_attrerror'):
+                                    if conform == 'absent':
+                                        yield {'custom': custom, 'conform': cf, 'cshape': cshape, 'provided': provided, 'hooks': list(hooks),
+                                               'alt': alt, 'sub': False, 'reg': None}
                         yield {'custom': custom, 'conform': conform, 'provided': provided, 'hooks': list(hooks), 'alt': alt,
                                'sub': False, 'reg': None, 'falsy_obj': True}
                         for regpos in (0, len(hooks)):
@@ -83,7 +95,7 @@ def generate(seed, mode):
     for _ in range(n):
         nh = o.choice([0, 1, 1, 2, 2, 3, 4])
         c = {'custom': o.choice(CUSTOMS), 'conform': o.choice(CONFORMS), 'provided': o.random() < 0.3,
-             'hooks': [o.choice(HOOKS) for _ in range(nh)], 'alt': o.random() < 0.5, 'sub': (lambda x: 'method' if x < 0.12 else x < 0.3)(o.random()), 'reg': None,
+             'hooks': [o.choice(HOOKS) for _ in range(nh)], 'alt': o.random() < 0.5, 'sub': (lambda x: 'method' if x < 0.06 else 'method2' if x < 0.09 else 'method3' if x < 0.12 else x < 0.3)(o.random()), 'reg': None,
              'falsy_obj': o.random() < 0.25}
         if o.random() < 0.25:
             c['reg'] = [o.randint(0, nh), o.choice(['hit', 'miss', 'factory_none'])]
@@ -154,10 +166,22 @@ def execute(program, ctx, mode):
             def helper(self):
                 return 'helper'
         K.__name__ = 'KA_' + custom
-        ifaces[custom] = (I, J, K)
+
+        class K2(K):
+            @interfacemethod
+            def helper2(self):
+                return 'helper2'
+        K2.__name__ = 'K2A_' + custom
+
+        class K3(K2):
+            @interfacemethod
+            def helper3(self):
+                return 'helper3'
+        K3.__name__ = 'K3A_' + custom
+        ifaces[custom] = (I, J, K, K2, K3)
         return ifaces[custom]
 
-    def mk_obj(conform, provided, I, falsy=False):
+    def mk_obj(conform, provided, I, falsy=False, cshape=None):
         ns = {}
         if falsy:
             ns['__bool__'] = lambda self: False
@@ -189,12 +213,24 @@ def execute(program, ctx, mode):
                     raise AttributeError('inside the __conform__ body')
                 if conform == 'typeerror':
                     raise TypeError('inner')
-            ns['__conform__'] = c
+            if cshape == 'static':
+                ns['__conform__'] = staticmethod(lambda iface: c(None, iface))
+            elif cshape == 'callable':
+                class CallableConform:
+                    def __call__(self_, iface):
+                        return c(None, iface)
+                ns['__conform__'] = CallableConform()
+            elif cshape == 'instattr':
+                pass            # set on the instance below
+            else:
+                ns['__conform__'] = c
         cls = type('Ob', (object,), ns)
         if conform == 'unbound':
             ob = cls            # the object is a class; its __conform__ is an instance method
         else:
             ob = cls()
+            if cshape == 'instattr' and conform not in ('absent', 'attr_attrerror', 'attr_raises'):
+                ob.__conform__ = lambda iface: c(ob, iface)
         if provided:
             directlyProvides(ob, I)
         return ob
@@ -361,10 +397,10 @@ def execute(program, ctx, mode):
         for step, case in enumerate(program['ops']):
             ctx.step = step
             ctx.nops += 1
-            I0, J0, K0 = mk_iface(case['custom'])
-            I = K0 if case.get('sub') == 'method' else (J0 if case.get('sub') else I0)
+            I0, J0, K0, K20, K30 = mk_iface(case['custom'])
+            I = {'method': K0, 'method2': K20, 'method3': K30}.get(case.get('sub')) or (J0 if case.get('sub') else I0)
             hook_vals.clear()
-            ob = mk_obj(case['conform'], case['provided'], I, case.get('falsy_obj', False))
+            ob = mk_obj(case['conform'], case['provided'], I, case.get('falsy_obj', False), case.get('cshape'))
             hooks = [mk_hook(k, i, None) for i, k in enumerate(case['hooks'])]
             if case.get('reg'):
                 pos, kind = case['reg']
